@@ -574,6 +574,9 @@ RedirectB(d, kind, re, cd, se, via) ==
     /\ kind = "merge" => d = "y" /\ ~st.bEof
     /\ kind = "none" => st.bW[d] # 0
     /\ kind = "proc" => HasC /\ cd \in OutDT /\ ~st.cLost /\ st.cSst = "open" /\ EofSafe(cd, se)
+    \* (moving a stream of B from one stream of C to another one while C is
+    \* write-paused ends in a KeyError of resume_feeding - observed, not modelled)
+    /\ kind = "proc" /\ st.bW[d] # 0 /\ st.tg[st.bW[d]].kind = "proc" => st.tg[st.bW[d]].cdt = cd
     /\ kind # "proc" => cd = "x" /\ se /\ via = "w"
     /\ LET S0 == [st EXCEPT !.nrb = @ + 1] IN
        st' = Settle(
